@@ -13,6 +13,7 @@ import (
 	"fmt"
 	"io"
 	"net"
+	"runtime"
 	"time"
 
 	"github.com/pion/turn/v5/verif/wire"
@@ -38,6 +39,14 @@ type sconn struct {
 	queue   [][]byte
 	reads   int
 	onWrite func(p []byte)
+	// Legal io.Reader behaviours other than "data, then the error on the next call":
+	eofWithLast bool // the bytes that end the stream are returned together with io.EOF (as crypto/tls does with a close_notify)
+	lastSeg     bool // set by the driver while the final segment is pending
+	empties     int  // every data read is preceded by this many (0, nil) results (as pion/dtls does for empty records)
+	emptyLeft   int
+	baseDepth   int // call-stack depth of the first Read
+	maxDepth    int // call-stack depth after the first run of empty reads (recursion per empty read shows here)
+	sawEOF      bool
 }
 
 func (c *sconn) Read(p []byte) (int, error) {
@@ -45,14 +54,41 @@ func (c *sconn) Read(p []byte) (int, error) {
 	if len(p) == 0 {
 		return 0, nil
 	}
+	if c.empties > 0 && c.baseDepth == 0 {
+		// the call-stack depth of the very first Read ...
+		var pcs [96]uintptr
+		c.baseDepth = runtime.Callers(0, pcs[:])
+	}
+	if c.empties > 0 && c.emptyLeft == 0 && c.maxDepth == 0 {
+		// ... and, once per run, at the end of the first run of empty reads
+		var pcs [96]uintptr
+		c.maxDepth = runtime.Callers(0, pcs[:])
+	}
 	for len(c.pend) == 0 {
 		if len(c.queue) == 0 {
+			if c.sawEOF {
+				return 0, io.EOF
+			}
+
 			return 0, errWouldBlock
 		}
 		c.pend, c.queue = c.queue[0], c.queue[1:]
 	}
+	if c.empties > 0 {
+		if c.emptyLeft > 0 {
+			c.emptyLeft--
+
+			return 0, nil
+		}
+		c.emptyLeft = c.empties
+	}
 	n := copy(p, c.pend)
 	c.pend = c.pend[n:]
+	if c.eofWithLast && c.lastSeg && len(c.pend) == 0 && len(c.queue) == 0 {
+		c.sawEOF = true
+
+		return n, io.EOF
+	}
 
 	return n, nil
 }
